@@ -1,6 +1,7 @@
 (** Property C12 — the theorems the check counts as obligations.  Nothing but
     statements closed by [exact] and [Print Assumptions]. *)
-From HS Require Import Base.Prelude C12.Model C12.PaxosNode.
+From HS Require Import Base.Prelude C12.Model C12.PaxosNode C12.PaxosSys C12.LockModel C12.Lock.
+From Coq Require Import Sorted.
 Local Open Scope Z_scope.
 
 (** Acceptor: the promised ballot never decreases, whatever the handler is given. *)
@@ -30,3 +31,46 @@ Theorem c12_paxos_future_value : forall c l f v,
   decided (nrun c pinit l) = true /\ v = dec_v (nrun c pinit l).
 Proof. exact future_value. Qed.
 Print Assumptions c12_paxos_future_value.
+
+(** VALIDITY, every schedule (any delivery order, loss, retry timing, client
+    proposals, cluster size): a node that reports a decision reports a value
+    that some client proposed — never Python's None. *)
+Theorem c12_paxos_validity : forall n sch i ov,
+  report (sys_run n sys_init sch) i = Some ov ->
+  exists v, ov = Some v /\ In v (proposed (sys_run n sys_init sch)).
+Proof. exact validity. Qed.
+Print Assumptions c12_paxos_validity.
+
+(** ... and so does every Promise / Accept / Decided message ever sent. *)
+Theorem c12_paxos_validity_messages : forall n sch src o,
+  In (src, o) (sent (sys_run n sys_init sch)) ->
+  out_ok (fun v => In v (proposed (sys_run n sys_init sch))) o.
+Proof. exact validity_messages. Qed.
+Print Assumptions c12_paxos_validity_messages.
+
+(** Every schedule: all Accept messages ever sent for one ballot carry one
+    value (phase 2 starts once per ballot) — the invariant whose failure was
+    finding C12-paxos-phase2-rerun. *)
+Theorem c12_paxos_one_value_per_ballot : forall n sch s1 d1 s2 d2 k b x1 x2,
+  In (s1, OAccept d1 k b x1) (sent (sys_run n sys_init sch)) ->
+  In (s2, OAccept d2 k b x2) (sent (sys_run n sys_init sch)) -> x1 = x2.
+Proof. exact one_value_per_ballot. Qed.
+Print Assumptions c12_paxos_one_value_per_ballot.
+
+(** FENCING TOKENS: for every sequence of acquire / try_acquire / release /
+    lease-expiry calls (any lock names, requesters, tokens, waiter limit), the
+    tokens handed out by successive grants are strictly increasing. *)
+Theorem c12_lock_tokens_strictly_increase : forall maxw ops,
+  StronglySorted Z.lt (map tok (glog (lrun maxw dinit ops))).
+Proof. exact tokens_strictly_increase. Qed.
+Print Assumptions c12_lock_tokens_strictly_increase.
+
+(** Every grant a client receives through a future and the grant of every
+    current holder is one of those grants (a re-entrant acquire returns the
+    existing grant). *)
+Theorem c12_lock_grants_are_logged : forall maxw ops,
+  (forall f g, In (f, Some g) (lresolved (lrun maxw dinit ops)) -> In g (glog (lrun maxw dinit ops))) /\
+  (forall k l h, In (k, l) (locks (lrun maxw dinit ops)) -> holder l = Some h ->
+     In (k, ltoken l, h) (glog (lrun maxw dinit ops))).
+Proof. exact grants_are_logged. Qed.
+Print Assumptions c12_lock_grants_are_logged.
